@@ -78,6 +78,9 @@ def do_read(a, kind):
     elif kind == "mean":
         if a.size:
             a.mean(axis=0)
+    elif kind == "rowmean":
+        if a.size:
+            a.mean(axis=-1)
     elif kind == "argmax":
         if all(l > 0 for l in a.lengths) and len(a):
             a.argmax(axis=-1)
@@ -178,6 +181,8 @@ def step(objs, st, o):
                 r = np.diff(a, n=int(arg), axis=-1)
             elif name == "unique":
                 r = np.unique(a, axis=-1)
+            elif name == "astype":
+                r = a.astype(a.dtype)
             else:
                 raise ValueError(name)
             if isinstance(r, RaggedArray):
